@@ -7,6 +7,7 @@ import (
 	"io"
 	"os"
 	"os/exec"
+	"path/filepath"
 	"runtime"
 	"strings"
 	"sync"
@@ -64,6 +65,11 @@ func (p *Pool) spawn() *worker {
 	exe, _ := os.Executable()
 	cmd := exec.Command(exe, "--worker", p.ID)
 	cmd.Env = append(os.Environ(), "GOMAXPROCS=2", "VERIF_DIR="+VerifDir())
+	// the repository unpacks its SQL migrations into os.TempDir() on every InitSQLite: keep that on tmpfs
+	root := ScratchRoot()
+	td := filepath.Join(root, "tmp")
+	os.MkdirAll(td, 0o700)
+	cmd.Env = append(cmd.Env, "TMPDIR="+td, "VERIF_SCRATCH="+root)
 	in, _ := cmd.StdinPipe()
 	out, _ := cmd.StdoutPipe()
 	tb := &tailBuf{}
